@@ -547,7 +547,8 @@ THEOREMS += ["OdxVerif.Codec." + t for t in [
     'C01_linear_leaf_ok', 'Described3.ok', 'DescribedTop3.ok', 'Described2.to3', 'DescribedTop.to3',
     'encodeDct_obj', 'decodeDct_obj', 'Comp.ofConvLeaf_ok', 'Comp.ofConvLeaf_endOk', 'Comp.ofConvPhysConst_ok',
     'LinLeaf.convOk', 'LinLeaf.comp_ok', 'LinLeaf.constComp_ok', 'TTLeaf.convOk', 'TTLeaf.comp_ok', 'TTLeaf.constComp_ok',
-    'DtcLeaf.convOk', 'DtcLeaf.comp_ok', 'DtcLeaf.constComp_ok', 'methodP2I_textTable_of_p2i', 'methodI2P_textTable_of_i2p']]
+    'DtcLeaf.convOk', 'DtcLeaf.comp_ok', 'DtcLeaf.constComp_ok', 'methodP2I_textTable_of_p2i', 'methodI2P_textTable_of_i2p',
+    'Comp.ofConvDefault_ok', 'LinLeaf.defaultComp_ok', 'TTLeaf.defaultComp_ok', 'DtcLeaf.defaultComp_ok']]
 # … and their C02 footprint (Proofs/CompCompuBits.lean, CompCompuBitsMsg.lean): Desc3 = the syntactic mirror of Described3; the layout
 # entry of a compu leaf holds the raw pattern of the INTERNAL value (statements of C02_bit_exact_nested2 / C02_overlap_iff_nested2)
 LEAN_TARGETS += ['OdxVerif.Proofs.CompCompuBitsMsg']
